@@ -771,7 +771,10 @@ func (env *Env) callExpr(e *CExpr) CVal {
 		return env.eval(substC(m.Body, sub))
 	}
 	if gs, ok := specs.GhostFields[name]; ok {
-		p := env.force(arg(0))
+		p := arg(0)
+		if !p.IsNil {
+			p = env.force(p)
+		}
 		srt := ArrSort(SRef, ghostSort(gs))
 		memArrays["G$"+name] = srt
 		st := env.stateOf(p)
@@ -882,6 +885,9 @@ func (env *Env) toGhostSort(v CVal, sortName string) *Term {
 	if v.T.Sort == s {
 		return v.T
 	}
+	if s == SBool && v.T.Sort == SBool {
+		return v.T
+	}
 	if s == SRef && v.T.Sort == SIface {
 		return Acc("iref", v.T)
 	}
@@ -947,6 +953,9 @@ func substC(e *CExpr, sub map[string]*CExpr) *CExpr {
 }
 
 func refOfVal(p CVal) *Term {
+	if p.IsNil {
+		return Null
+	}
 	switch p.T.Sort {
 	case SRef:
 		return p.T
